@@ -8,6 +8,7 @@
 #include <cstdint>
 #include <string>
 #include <exception>
+#include <unistd.h>
 #include "IPhreeqc.hpp"
 
 static const char *PROBE =
